@@ -11,6 +11,46 @@ D = "middleware/dispatcher.py"
 
 _LOOP = '        for part in parts:\n            out.append(unquote(part, "utf-8", "werkzeug.url_quote"))\n            out.append(next(parts, ""))\n'
 
+# -- refactored shapes (helper extraction, comprehension walks) used both as twins and as the base of mutants --------
+_U2I_AUTH = '    if parts.username:\n        auth = _unquote_user(parts.username)\n\n        if parts.password:\n            password = _unquote_user(parts.password)\n            auth = f"{auth}:{password}"\n\n        netloc = f"{auth}@{netloc}"\n'
+_I2U_AUTH = '    if parts.username:\n        auth = quote(parts.username, safe="%!$&\'()*+,;=")\n\n        if parts.password:\n            password = quote(parts.password, safe="%!$&\'()*+,;=")\n            auth = f"{auth}:{password}"\n\n        netloc = f"{auth}@{netloc}"\n'
+_USERINFO_HELPER = 'def _with_userinfo(host, user, secret, conv):\n    if user:\n        userinfo = conv(user)\n        if secret:\n            userinfo = userinfo + ":" + conv(secret)\n        host = userinfo + "@" + host\n    return host\n\n\ndef uri_to_iri(uri: str) -> str:'
+
+
+def _userinfo_edits(helper=_USERINFO_HELPER, i2u_conv='lambda v: quote(v, safe="%!$&\'()*+,;=")'):
+    return [
+        (U, "def uri_to_iri(uri: str) -> str:", helper),
+        (U, _U2I_AUTH, "    netloc = _with_userinfo(netloc, parts.username, parts.password, _unquote_user)\n"),
+        (U, _I2U_AUTH, f"    netloc = _with_userinfo(netloc, parts.username, parts.password, {i2u_conv})\n"),
+    ]
+
+
+_WALK = '        parts = iter(pattern.split(value))\n        out = []\n\n' + _LOOP + '\n        return "".join(out)\n'
+
+
+def _walk(body):
+    return [(U, _WALK, body)]
+
+
+_ENUM_COMP = '        return "".join(\n            unquote(piece, "utf-8", "werkzeug.url_quote") if index % 2 == 0 else piece\n            for index, piece in enumerate(pattern.split(value))\n        )\n'
+_ENUM_LOOP = '        out = []\n        for pos, piece in enumerate(pattern.split(value)):\n            if pos & 1:\n                out.append(piece)\n                continue\n            out.append(unquote(piece, "utf-8", "werkzeug.url_quote"))\n        return "".join(out)\n'
+_ZIP_LONGEST = '        pieces = pattern.split(value)\n        out = []\n        for free, kept in itertools.zip_longest(pieces[::2], pieces[1::2], fillvalue=""):\n            out += [unquote(free, "utf-8", "werkzeug.url_quote"), kept]\n        return "".join(out)\n'
+_SLICE_ASSIGN = '        pieces = pattern.split(value)\n        pieces[::2] = [unquote(p, "utf-8", "werkzeug.url_quote") for p in pieces[::2]]\n        return "".join(pieces)\n'
+_IMPORT_ITERTOOLS = (U, "import codecs\n", "import codecs\nimport itertools\n")
+
+_DISPATCH_BODY = '        script = environ.get("PATH_INFO", "")\n        path_info = ""\n\n        while "/" in script:\n            if script in self.mounts:\n                app = self.mounts[script]\n                break\n\n            script, last_item = script.rsplit("/", 1)\n            path_info = f"/{last_item}{path_info}"\n        else:\n            app = self.mounts.get(script, self.app)\n\n        original_script_name = environ.get("SCRIPT_NAME", "")\n        environ["SCRIPT_NAME"] = original_script_name + script\n        environ["PATH_INFO"] = path_info\n        return app(environ, start_response)\n'
+
+
+def _dispatch_lookup(ret_hit="self.mounts[head], head, rest", ret_miss="self.mounts.get(head, self.app), head, rest", peel='head, _, seg = head.rpartition("/")', acc='rest = "/" + seg + rest', stores='        environ["SCRIPT_NAME"] = environ.get("SCRIPT_NAME", "") + mount\n        environ["PATH_INFO"] = rest\n'):
+    return [(D, _DISPATCH_BODY,
+             '        app, mount, rest = self._lookup(environ.get("PATH_INFO", ""))\n' + stores + '        return app(environ, start_response)\n\n'
+             '    def _lookup(self, path):\n        head, rest = path, ""\n        while "/" in head:\n            if head in self.mounts:\n'
+             f'                return {ret_hit}\n            {peel}\n            {acc}\n        return {ret_miss}\n')]
+
+
+_DISPATCH_REWRITE = [(D, '        original_script_name = environ.get("SCRIPT_NAME", "")\n        environ["SCRIPT_NAME"] = original_script_name + script\n        environ["PATH_INFO"] = path_info\n        return app(environ, start_response)\n',
+                      '        self._shift(environ, script, path_info)\n        return app(environ, start_response)\n\n    @staticmethod\n    def _shift(env, matched, rest):\n        env["SCRIPT_NAME"] = env.get("SCRIPT_NAME", "") + matched\n        env["PATH_INFO"] = rest\n')]
+
 MUTANTS = [
     # R15.1 - the compiled keep-quoted pattern
     {"name": "pattern-drops-ignorecase", "expect": "R15.1", "edits": [(U, 'pattern = re.compile(f"((?:%(?:{choices}))+)", re.I)', 'pattern = re.compile(f"((?:%(?:{choices}))+)")')]},
@@ -64,6 +104,44 @@ MUTANTS = [
     {"name": "dispatcher-path-info-only-when-nonempty", "expect": "R15.6", "edits": [(D, '        environ["PATH_INFO"] = path_info\n', '        if path_info:\n            environ["PATH_INFO"] = path_info\n')]},
     {"name": "dispatcher-case-folds-path", "expect": "R15.6", "edits": [(D, 'script = environ.get("PATH_INFO", "")', 'script = environ.get("PATH_INFO", "").lower()')]},
     {"name": "dispatcher-decodes-remainder", "expect": "R15.6", "edits": [(D, '        environ["PATH_INFO"] = path_info\n', '        environ["PATH_INFO"] = path_info.encode("latin1").decode("utf-8", "replace")\n')]},
+    # the same defects on refactored shapes (helper extraction / comprehension walks must not hide them)
+    {"name": "helper-userinfo-password-raw", "expect": "R15.2", "edits": _userinfo_edits(helper=_USERINFO_HELPER.replace('":" + conv(secret)', '":" + secret'))},
+    {"name": "helper-userinfo-password-raw-iri-side", "expect": "R15.3", "edits": _userinfo_edits(helper=_USERINFO_HELPER.replace('":" + conv(secret)', '":" + secret'))},
+    {"name": "helper-userinfo-quote-percent-unsafe", "expect": "R15.2", "edits": _userinfo_edits(i2u_conv='lambda v: quote(v, safe="!$&\'()*+,;=")')},
+    {"name": "helper-userinfo-username-as-password", "expect": "R15.3", "edits": _userinfo_edits(helper=_USERINFO_HELPER.replace("conv(secret)", "conv(user)"))},
+    {"name": "enumerate-walk-parity-flipped", "expect": "R15.3", "edits": _walk(_ENUM_COMP.replace("index % 2 == 0", "index % 2"))},
+    {"name": "enumerate-walk-filters-empty-pieces", "expect": "R15.3", "edits": _walk(_ENUM_COMP.replace("enumerate(pattern.split(value))\n", "enumerate(pattern.split(value))\n            if index > 0\n"))},
+    {"name": "enumerate-walk-counts-from-one", "expect": "R15.3", "edits": _walk(_ENUM_COMP.replace("enumerate(pattern.split(value))", "enumerate(pattern.split(value), 1)"))},
+    {"name": "enumerate-loop-unquotes-everything", "expect": "R15.3", "edits": _walk(_ENUM_LOOP.replace("                out.append(piece)\n                continue\n", "                pass\n"))},
+    {"name": "zip-walk-drops-last-free-piece", "expect": "R15.3", "edits": [_IMPORT_ITERTOOLS] + _walk(_ZIP_LONGEST.replace('itertools.zip_longest(pieces[::2], pieces[1::2], fillvalue="")', "zip(pieces[::2], pieces[1::2])"))},
+    {"name": "zip-walk-kept-first", "expect": "R15.3", "edits": [_IMPORT_ITERTOOLS] + _walk(_ZIP_LONGEST.replace('[unquote(free, "utf-8", "werkzeug.url_quote"), kept]', '[kept, unquote(free, "utf-8", "werkzeug.url_quote")]'))},
+    {"name": "slice-walk-unquotes-kept-slice", "expect": "R15.3", "edits": _walk(_SLICE_ASSIGN.replace("pieces[::2] = [", "pieces[1::2] = [").replace("for p in pieces[::2]]", "for p in pieces[1::2]]"))},
+    {"name": "lookup-helper-returns-swapped", "expect": "R15.6", "edits": _dispatch_lookup(ret_hit="self.mounts[head], rest, head")},
+    {"name": "lookup-helper-remainder-appended", "expect": "R15.6", "edits": _dispatch_lookup(acc='rest = rest + "/" + seg')},
+    {"name": "lookup-helper-casefolds", "expect": "R15.6", "edits": _dispatch_lookup(peel='head, _, seg = head.lower().rpartition("/")')},
+    {"name": "shift-helper-skips-path-info", "expect": "R15.6", "edits": [(D, _DISPATCH_REWRITE[0][1], _DISPATCH_REWRITE[0][2].replace('        env["PATH_INFO"] = rest\n', '        if rest:\n            env["PATH_INFO"] = rest\n'))]},
+    {"name": "shift-helper-decodes", "expect": "R15.6", "edits": [(D, _DISPATCH_REWRITE[0][1], _DISPATCH_REWRITE[0][2].replace('env["PATH_INFO"] = rest', 'env["PATH_INFO"] = rest.encode("latin1").decode()'))]},
+    {"name": "dispatcher-prefix-and-remainder-swapped", "expect": "R15.6", "edits": [(D, 'environ["SCRIPT_NAME"] = original_script_name + script\n        environ["PATH_INFO"] = path_info\n', 'environ["SCRIPT_NAME"] = original_script_name + path_info\n        environ["PATH_INFO"] = script\n')]},
+    {"name": "current-url-helper-question-mark-safe", "expect": "R15.2", "edits": [
+        (SU, "def get_current_url(", "def _quote_path(value: str) -> str:\n    return quote(value, safe=\"!$&'()*+,/:;=?@%\")\n\n\ndef get_current_url("),
+        (SU, "url.append(quote(root_path.rstrip(\"/\"), safe=\"!$&'()*+,/:;=@%\"))", 'url.append(_quote_path(root_path.rstrip("/")))'),
+        (SU, "url.append(quote(path.lstrip(\"/\"), safe=\"!$&'()*+,/:;=@%\"))", 'url.append(_quote_path(path.lstrip("/")))'),
+    ]},
+    {"name": "request-static-helper-forgets-dance", "expect": "R15.5", "edits": [
+        (RQ, 'path=_wsgi_decoding_dance(environ.get("PATH_INFO") or ""),', 'path=self._text(environ.get("PATH_INFO")),'),
+        (RQ, "    def __init__(\n        self,\n        environ: WSGIEnvironment,", "    @staticmethod\n    def _text(raw):\n        return raw or \"\"\n\n    def __init__(\n        self,\n        environ: WSGIEnvironment,"),
+    ]},
+    {"name": "server-method-helper-forgets-dance", "expect": "R15.5", "edits": [
+        (SV, '"PATH_INFO": _wsgi_encoding_dance(path_info),', '"PATH_INFO": self._tunnel(path_info),'),
+        (SV, "    def make_environ(self) -> WSGIEnvironment:", "    def _tunnel(self, text: str) -> str:\n        return text\n\n    def make_environ(self) -> WSGIEnvironment:"),
+    ]},
+    {"name": "keep-pattern-helper-drops-ignorecase", "expect": "R15.1", "edits": [
+        (U, '    choices = "|".join(f"{ord(c):02X}" for c in sorted(chars))\n    pattern = re.compile(f"((?:%(?:{choices}))+)", re.I)\n', "    pattern = _keep_pattern(chars)\n"),
+        (U, "def _make_unquote_part(name: str, chars: str)", 'def _keep_pattern(chars: str) -> "re.Pattern[str]":\n    choices = "|".join(f"{ord(c):02X}" for c in sorted(chars))\n    return re.compile(f"((?:%(?:{choices}))+)")\n\n\ndef _make_unquote_part(name: str, chars: str)'),
+    ]},
+    {"name": "iri-unsplit-replace-forgets-query", "expect": "R15.2", "edits": [(U, '        netloc = f"{auth}@{netloc}"\n\n    return urlunsplit((parts.scheme, netloc, path, query, fragment))\n\n\n# Python < 3.12', '        netloc = f"{auth}@{netloc}"\n\n    return urlunsplit(parts._replace(netloc=netloc, path=path, fragment=fragment))\n\n\n# Python < 3.12')]},
+    {"name": "dispatcher-rfind-remainder-appended", "expect": "R15.6", "edits": [(D, '            script, last_item = script.rsplit("/", 1)\n            path_info = f"/{last_item}{path_info}"', '            cut = script.rfind("/")\n            path_info = path_info + script[cut:]\n            script = script[:cut]')]},
+    {"name": "handler-unpacked-bounds-resume-at-start", "expect": "R15.3", "edits": [(U, 'out = quote(e.object[e.start : e.end], safe="")  # type: ignore\n    return out, e.end  # type: ignore', 'start, end = e.start, e.end  # type: ignore\n    return quote(e.object[start:end], safe=""), start  # type: ignore')]},
 ]
 
 TWINS = [
@@ -86,4 +164,55 @@ TWINS = [
     {"name": "handler-slice-in-local", "edits": [(U, 'out = quote(e.object[e.start : e.end], safe="")  # type: ignore\n    return out, e.end  # type: ignore', 'bad = e.object[e.start : e.end]  # type: ignore\n    return quote(bad, safe=""), e.end  # type: ignore')]},
     {"name": "dispatcher-subscript-read", "edits": [(D, 'script = environ.get("PATH_INFO", "")', 'script = environ["PATH_INFO"] if "PATH_INFO" in environ else ""')]},
     {"name": "current-url-quoted-query-in-local", "edits": [(SU, '        url.append(quote(query_string, safe="!$&\'()*+,/:;=?@%"))', '        quoted_query = quote(query_string, safe="!$&\'()*+,/:;=?@%")\n        url.append(quoted_query)')]},
+    # refactorings that move the judged statements into helpers or rewrite the walks
+    {"name": "userinfo-block-shared-helper-with-converter", "edits": _userinfo_edits()},
+    {"name": "partial-unquoter-enumerate-comprehension", "edits": _walk(_ENUM_COMP)},
+    {"name": "partial-unquoter-enumerate-loop-continue", "edits": _walk(_ENUM_LOOP)},
+    {"name": "partial-unquoter-zip-longest-slices", "edits": [_IMPORT_ITERTOOLS] + _walk(_ZIP_LONGEST)},
+    {"name": "partial-unquoter-zip-padded-slice", "edits": _walk(_ZIP_LONGEST.replace('itertools.zip_longest(pieces[::2], pieces[1::2], fillvalue="")', 'zip(pieces[::2], pieces[1::2] + [""])'))},
+    {"name": "partial-unquoter-slice-assignment", "edits": _walk(_SLICE_ASSIGN)},
+    {"name": "partial-unquoter-pairwalk-walrus-free", "edits": [(U, _LOOP, '        for part in parts:\n            out += [unquote(part, "utf-8", "werkzeug.url_quote"), next(parts, "")]\n')]},
+    {"name": "decode-idna-label-helper", "edits": [(U, '    parts = []\n\n    for part in data.split(b"."):\n        try:\n            parts.append(part.decode("idna"))\n        except UnicodeError:\n            parts.append(part.decode("ascii"))\n\n    return ".".join(parts)\n', '    return ".".join(_decode_label(p) for p in data.split(b"."))\n\n\ndef _decode_label(label: bytes) -> str:\n    try:\n        return label.decode("idna")\n    except UnicodeError:\n        return label.decode("ascii")\n')]},
+    {"name": "dispatcher-lookup-in-private-method", "edits": _dispatch_lookup()},
+    {"name": "dispatcher-stores-in-static-helper", "edits": _DISPATCH_REWRITE},
+    {"name": "partial-unquoter-enumerate-from-one", "edits": _walk(_ENUM_COMP.replace("index % 2 == 0", "index % 2").replace("enumerate(pattern.split(value))", "enumerate(pattern.split(value), 1)"))},
+    {"name": "current-url-path-quote-helper", "edits": [
+        (SU, "def get_current_url(", "def _quote_path(value: str) -> str:\n    return quote(value, safe=\"!$&'()*+,/:;=@%\")\n\n\ndef get_current_url("),
+        (SU, "url.append(quote(root_path.rstrip(\"/\"), safe=\"!$&'()*+,/:;=@%\"))", 'url.append(_quote_path(root_path.rstrip("/")))'),
+        (SU, "url.append(quote(path.lstrip(\"/\"), safe=\"!$&'()*+,/:;=@%\"))", 'url.append(_quote_path(path.lstrip("/")))'),
+    ]},
+    {"name": "current-url-two-arg-quote-helper", "edits": [
+        (SU, "def get_current_url(", "def _q(value, extra):\n    return quote(value, safe=\"!$&'()*+,/:;=@%\" + extra)\n\n\ndef get_current_url("),
+        (SU, "url.append(quote(root_path.rstrip(\"/\"), safe=\"!$&'()*+,/:;=@%\"))", 'url.append(_q(root_path.rstrip("/"), ""))'),
+    ]},
+    {"name": "request-decodes-through-static-helper", "edits": [
+        (RQ, 'path=_wsgi_decoding_dance(environ.get("PATH_INFO") or ""),', 'path=self._text(environ.get("PATH_INFO")),'),
+        (RQ, "    def __init__(\n        self,\n        environ: WSGIEnvironment,", "    @staticmethod\n    def _text(raw):\n        return _wsgi_decoding_dance(raw or \"\")\n\n    def __init__(\n        self,\n        environ: WSGIEnvironment,"),
+    ]},
+    {"name": "request-reads-key-through-module-helper", "edits": [
+        (RQ, 'root_path=_wsgi_decoding_dance(environ.get("SCRIPT_NAME") or ""),', 'root_path=_environ_text(environ, "SCRIPT_NAME"),'),
+        (RQ, "class Request(_SansIORequest):", "def _environ_text(environ, key):\n    return _wsgi_decoding_dance(environ.get(key) or \"\")\n\n\nclass Request(_SansIORequest):"),
+    ]},
+    {"name": "server-path-info-through-method", "edits": [
+        (SV, '"PATH_INFO": _wsgi_encoding_dance(path_info),', '"PATH_INFO": self._tunnel(path_info),'),
+        (SV, "    def make_environ(self) -> WSGIEnvironment:", "    def _tunnel(self, text: str) -> str:\n        return _wsgi_encoding_dance(text)\n\n    def make_environ(self) -> WSGIEnvironment:"),
+    ]},
+    {"name": "keep-pattern-built-in-helper", "edits": [
+        (U, '    choices = "|".join(f"{ord(c):02X}" for c in sorted(chars))\n    pattern = re.compile(f"((?:%(?:{choices}))+)", re.I)\n', "    pattern = _keep_pattern(chars)\n"),
+        (U, "def _make_unquote_part(name: str, chars: str)", 'def _keep_pattern(chars: str) -> "re.Pattern[str]":\n    """Match runs of escapes that must stay quoted."""\n    choices = "|".join(f"{ord(c):02X}" for c in sorted(chars))\n    return re.compile(f"((?:%(?:{choices}))+)", re.I)\n\n\ndef _make_unquote_part(name: str, chars: str)'),
+    ]},
+    {"name": "error-handler-name-in-constant", "edits": [
+        (U, 'codecs.register_error("werkzeug.url_quote", _codec_error_url_quote)', '_QUOTE_ERRORS = "werkzeug.url_quote"\ncodecs.register_error(_QUOTE_ERRORS, _codec_error_url_quote)'),
+        (U, 'unquote(part, "utf-8", "werkzeug.url_quote")', 'unquote(part, encoding="utf-8", errors=_QUOTE_ERRORS)'),
+    ]},
+    {"name": "handler-bounds-unpacked", "edits": [(U, 'out = quote(e.object[e.start : e.end], safe="")  # type: ignore\n    return out, e.end  # type: ignore', 'start, end = e.start, e.end  # type: ignore\n    return quote(e.object[start:end], safe=""), end  # type: ignore')]},
+    {"name": "iri-unsplit-replace", "edits": [(U, '        netloc = f"{auth}@{netloc}"\n\n    return urlunsplit((parts.scheme, netloc, path, query, fragment))\n\n\n# Python < 3.12', '        netloc = f"{auth}@{netloc}"\n\n    return urlunsplit(parts._replace(netloc=netloc, path=path, query=query, fragment=fragment))\n\n\n# Python < 3.12')]},
+    {"name": "dispatcher-rfind-slicing", "edits": [(D, '            script, last_item = script.rsplit("/", 1)\n            path_info = f"/{last_item}{path_info}"', '            cut = script.rfind("/")\n            path_info = script[cut:] + path_info\n            script = script[:cut]')]},
+    {"name": "userinfo-helper-takes-split-result", "edits": [
+        (U, "def uri_to_iri(uri: str) -> str:", 'def _userinfo(parts, conv):\n    if not parts.username:\n        return ""\n    auth = conv(parts.username)\n    if parts.password:\n        auth = f"{auth}:{conv(parts.password)}"\n    return auth + "@"\n\n\ndef uri_to_iri(uri: str) -> str:'),
+        (U, _U2I_AUTH, '    netloc = f"{_userinfo(parts, _unquote_user)}{netloc}"\n'),
+        (U, _I2U_AUTH, "    netloc = _userinfo(parts, lambda v: quote(v, safe=\"%!$&'()*+,;=\")) + netloc\n"),
+    ]},
+    {"name": "partial-unquoter-enumerate-if-else-loop", "edits": _walk('        out = []\n        for i, piece in enumerate(pattern.split(value)):\n            odd = i % 2 == 1\n            if not odd:\n                piece = unquote(piece, "utf-8", "werkzeug.url_quote")\n            out.append(piece)\n        return "".join(out)\n')},
+    {"name": "dispatcher-while-true-early-break", "edits": [(D, '        while "/" in script:\n            if script in self.mounts:\n                app = self.mounts[script]\n                break\n\n            script, last_item = script.rsplit("/", 1)\n            path_info = f"/{last_item}{path_info}"\n        else:\n            app = self.mounts.get(script, self.app)\n', '        while True:\n            if "/" not in script:\n                app = self.mounts.get(script, self.app)\n                break\n            if script in self.mounts:\n                app = self.mounts[script]\n                break\n            parts = script.rpartition("/")\n            script = parts[0]\n            path_info = "/" + parts[2] + path_info\n')]},
 ]
